@@ -11,6 +11,7 @@ from common import frac_str, show_list
 LEVEL = "proof"
 LEAN_PROPS = ["FastTicc.Props.C01"]
 LEAN_HELPERS = ["FastTicc.Proofs.Viterbi"]
+LEAN_TRANSLATED = {"FastTicc.Props.TrViterbi": ["assign_point_cluster_labels"]}
 RULE = ("random cost tables with dyadic entries (exact in float64): T in [1,40], K in [1,6], scalar or per-pair "
         "beta >= 0 incl. 0, heavy ties, negative costs, spreads 2^-10..2^20; non-trivial = T>=2, K>=2 and the "
         "optimum differs from the per-point greedy labelling; distinct by (table, beta)")
@@ -137,6 +138,7 @@ def run(ctx):
     outs = ctx.driver.run(lines)
 
     strict_same = 0
+    gen_cases = []
     for c, out in zip(cases, outs):
         table = [[Fraction(x) for x in row] for row in c["table"]]
         T, K = len(table), len(table[0])
@@ -173,6 +175,15 @@ def run(ctx):
                           dict(c, impl_labels=labels, impl_cost=float(cost)), {"site": "cost-of-path"})
         if not np.array_equal(arr, snap):
             ctx.violation("impl-violation", "cost table modified by the labelling step", c, {"site": "mutation"})
+        # --- the kernel TRANSLATED from the source, on the table the implementation saw: where double arithmetic is
+        # exact (every partial sum an integer multiple of 1/den below 2^52) it must return the SAME labels (same
+        # tie-breaking: the translation is literal) and the same cost
+        if np.all(np.isfinite(arr)) and Fraction(float(cost)) == exact and \
+                (sum(abs(v) for row in itab for v in row) + sum(abs(v) for v in ibet)) < 2 ** 52 and \
+                all(Fraction(float(a)) == t for ra, rt in zip(arr, table) for a, t in zip(ra, rt)):
+            rows_s = show_list(table, lambda r: show_list(r, frac_str), ";")
+            bs = ("v:" + show_list(betas, frac_str)) if c["beta_kind"] == "vector" else ("s:" + frac_str(betas[0]))
+            gen_cases.append((f"{rows_s} {bs}", f"ok {show_list(labels)} {frac_str(exact)}", c))
         # --- correspondence with the model
         mp = out.split(" ")
         if len(mp) != 2:
@@ -210,6 +221,8 @@ def run(ctx):
         ctx.case(key, nontrivial, sample={"T": T, "K": K, "beta_kind": c["beta_kind"], "labels": labels,
                                           "cost": str(exact)} if T <= 6 else None)
     ctx.extra["strict_same_path_as_model"] = strict_same
+    ctx.gen_compare("assign_point_cluster_labels", gen_cases,
+                    "translated assign_point_cluster_labels vs the implementation (labels and cost, exact inputs)")
 
 
     # ---------------- kernel calls of real runs, replayed exactly: every double is a rational, so the model
